@@ -74,6 +74,14 @@ def shapes(tier):
                                              ("block", [g.exit(), g.log()], [], [("call", "h", g.t()), g.log()]),
                                              g.log()]), g.lit()]),
         ("call", "f", g.t()), g.lit()])
+    # loops over the characters of a string, with every exit kind
+    add("forstr", lambda g: [("for", "ch", "chars", [("logvar", "ch"), g.exit(), g.log()]), g.log(), g.lit()])
+    add("forstr-in-function", lambda g: [("fun", "f", [("for", "ch", "chars", [("logvar", "ch"), g.exit(), g.log()]),
+                                                       g.log(), g.lit()]),
+                                         ("call", "f", g.t()), g.log(), g.lit()])
+    add("for-forstr", lambda g: [("fun", "f", [("for", "i", "items", [("logvar", "i"),
+                                   ("for", "ch", "chars", [("logvar", "ch"), g.exit(), g.log()]), g.exit(), g.log()]), g.lit()]),
+                                 ("call", "f", g.t()), g.lit()])
     add("forset", lambda g: [("forset", "i", "sitems", [("logvar", "i"), g.exit(), g.log()]), g.lit()])
     for what in ("keys", "values", "entries"):
         add("formap-" + what, lambda g, what=what: [
@@ -231,13 +239,16 @@ def run_loops(ctx, cell):
     c1, c2 = ctx.int("c1", 0, 1), ctx.int("c2", 0, 2)
     rv, ev = vint(ctx.int("rv", 50, 51)), vint(ctx.int("ev", 7, 8))
     rv2 = vint(60)
+    nch = ctx.choice("nch", 3) if "forstr" in name else 2
+    chars = [vstr(c) for c in "xy"[:nch]]
     mkeys = [1, 2, 3][:1 + ctx.choice("nm", 3)]
     mpairs = [(vint(k_), vint(ctx.int("mv%d" % k_, 70, 79))) for k_ in reversed(mkeys)]
     vals = {"sel": sel, "sel2": sel2, "kind": kind, "kind2": kind2, "ev": ev, "ev2": ev, "rv": rv, "rv2": rv2,
-            "items": items, "items2": items2, "sitems": sitems, "n": n, "c1": c1, "c2": c2, "mitems": mpairs}
+            "items": items, "items2": items2, "sitems": sitems, "n": n, "c1": c1, "c2": c2, "mitems": mpairs,
+            "chars": chars}
     env = {"sel": vint(sel), "sel2": vint(sel2), "kind": vint(kind), "kind2": vint(kind2), "ev": ev, "ev2": ev,
            "rv": rv, "rv2": rv2, "items": vlist(items), "items2": vlist(items2), "sitems": vset(sitems), "n": vint(n),
-           "c1": vint(c1), "c2": vint(c2), "log": vlist([]), "mitems": vmap(mpairs)}
+           "c1": vint(c1), "c2": vint(c2), "log": vlist([]), "mitems": vmap(mpairs), "chars": vstr("xy"[:nch])}
     text = tdsl.render(prog)
     out = run_ckl(text, env)
     detail = lambda: {"program": text, "values": {k_: ctx.plain(v) for k_, v in env.items() if k_ != "log"},
